@@ -197,7 +197,7 @@ def planted(seed, n):
 
 
 def run(ctx, res):
-    pipeprop.run(ctx, res, "C14", PROFILE, n_quick=150, n_thorough=2500, probe_ids=("F19", "F29", "F33", "F41"),
+    pipeprop.run(ctx, res, "C14", PROFILE, n_quick=150, n_thorough=2500, probe_ids=("F19", "F29", "F33", "F41", "F45"),
                  label="converse: accepted pipelines export")
     if ctx.replay:
         return
